@@ -72,6 +72,9 @@ class C06(Prop):
         xs = [F.gen_value(rng, k) for _ in range(rng.choice([0, 1, 2, 3, 4, 5, 6, 8]))]
         ops, k2 = gen_ops(rng, k, rng.randint(1, 4))
         parts = [[F.to_json(x) for x in p] for p in random_layout(rng, xs, 5)]
+        if rng.random() < .2:
+            # a sampling step with fraction 0 or 1 (deterministic): it must still pull - hence evaluate - everything upstream
+            ops.insert(rng.randint(0, len(ops)), {'op': 'sample', 'all': rng.random() < .5})
         r = rng.random()
         if r < .5:
             acts = ['collect', 'count', 'foreach', 'reduce', 'saveAsTextFile', 'aggregate']
@@ -97,6 +100,12 @@ class C06(Prop):
         for n in range(0, 8):
             out.append({'parts': parts, 'ops': pops, 'action': 'take', 'n': n})
         out.append({'parts': parts, 'ops': pops, 'action': 'isEmpty', 'n': 1})
+        for allf in (False, True):
+            sops = [ops[1], {'op': 'sample', 'all': allf}, ops[0]]
+            for a in ('collect', 'count', 'foreach', 'reduce', 'aggregate'):
+                out.append({'parts': parts, 'ops': sops, 'action': a})
+            for n in (0, 1, 3):
+                out.append({'parts': parts, 'ops': sops, 'action': 'take', 'n': n})
         for a in ('first', 'isEmpty', 'collect', 'count', 'foreach'):
             out.append({'parts': parts, 'ops': ops, 'action': a, 'n': 1})
         out.append({'parts': [[1, 3], [5]], 'ops': ops, 'action': 'isEmpty', 'n': 1})
@@ -149,6 +158,8 @@ class C06(Prop):
                     rdd = rdd.keyBy(wrap(i, F.MAP[o['f']]))
                 elif o['op'] == 'persist':
                     rdd = rdd.persist() if i % 2 else rdd.cache()
+                elif o['op'] == 'sample':
+                    rdd = rdd.sample(False, 1.0 if o['all'] else 0.0, 5 + i)
                 else:
                     raise ValueError(o['op'])
             # (a) definition time: also defining sampling and persistence on top must not call anything
